@@ -396,6 +396,11 @@ class DAGRunConcurrentManager(DAGRunManagerLike):
                 return result
 
             except retry_policy.exceptions as error:  # noqa: PERF203
+                if not isinstance(error, Exception):
+                    # The setting may name BaseException classes. Cancellation and other non-Exception
+                    # errors are neither retried nor replaced by the default value.
+                    raise
+
                 logger.debug(
                     'Node %s will be restarted in %s seconds...',
                     node_id,
